@@ -66,6 +66,10 @@ type Obligation struct {
 	extra  []string // extra items only for this obligation (e.g. skolem constants)
 	// MustFail marks a vacuity guard: it is expected NOT to be provable.
 	MustFail bool `json:"must_fail,omitempty"`
+	// Atom: an attempt to prove a whole predicate instance folded; when it succeeds the obligations for the
+	// predicate's conjuncts (subsumedBy == this) are discharged by it. Never counted or reported itself.
+	Atom       bool `json:"-"`
+	subsumedBy *Obligation
 	// results
 	Status  string            `json:"status"`
 	Solver  string            `json:"solver"`
@@ -93,9 +97,70 @@ type Ctx struct {
 	onHavoc       func(st *State) // re-assume rely predicates after unknown code ran
 	inlineDepth   int             // >0 while evaluating under a quantifier: no global definitions
 	qfacts        *[]Term         // collects facts while under a quantifier
+	// folded predicates: while a bool predicate of the contract language is expanded, getRec records the state
+	// components it reads (its footprint); the predicate instance is then also represented by an application of an
+	// uninterpreted function to its arguments and footprint ("atom"), see specEnv.call.
+	getRec    map[string]Term
+	getRecBad bool
+	atomFuns  map[string]string
+	verTokens map[string]string
+	lastAtom  Term
 }
 
 func (c *Ctx) assumeRaw(item string) { c.items = append(c.items, item) }
+
+func (c *Ctx) verToken(t Term) Term {
+	if c.verTokens == nil {
+		c.verTokens = map[string]string{}
+	}
+	if v, ok := c.verTokens[t]; ok {
+		return v
+	}
+	v := fmt.Sprintf("ver!%d", len(c.verTokens))
+	c.verTokens[t] = v
+	c.assumeRaw(fmt.Sprintf("(declare-const %s Int)", v))
+	return v
+}
+
+// atomTerm: the folded form of predicate instance name(args) whose expansion read exactly the components fp.
+func (c *Ctx) atomTerm(name string, args []sval, fp map[string]Term) Term {
+	var names []string
+	for n := range fp {
+		names = append(names, n)
+	}
+	sort.Strings(names)
+	var sorts []string
+	var ts []Term
+	for _, a := range args {
+		so := a.sort
+		if so == "" {
+			so = "Int"
+		}
+		sorts = append(sorts, so)
+		ts = append(ts, a.t)
+	}
+	for _, n := range names {
+		// a footprint component is represented by a version token (one unconstrained integer constant per distinct
+		// component term): two instances match when they read syntactically the same component versions. Passing
+		// the arrays themselves makes the solvers reason about extensional equality of every pair of heap versions.
+		sorts = append(sorts, "Int")
+		ts = append(ts, c.verToken(fp[n]))
+	}
+	sig := name + "(" + strings.Join(sorts, " ") + ")" + strings.Join(names, ",")
+	if c.atomFuns == nil {
+		c.atomFuns = map[string]string{}
+	}
+	fn, ok := c.atomFuns[sig]
+	if !ok {
+		fn = fmt.Sprintf("P!%s!%d", name, len(c.atomFuns))
+		c.atomFuns[sig] = fn
+		c.assumeRaw(fmt.Sprintf("(declare-fun %s (%s) Bool)", fn, strings.Join(sorts, " ")))
+	}
+	if len(ts) == 0 {
+		return fn
+	}
+	return app(fn, ts...)
+}
 
 func newCtx(fn string) *Ctx {
 	return &Ctx{fn: fn, declared: map[string]string{}, facts: map[string]bool{}, notes: map[string]bool{}, kindCnt: map[string]int{}}
@@ -567,6 +632,47 @@ var globalSem = make(chan struct{}, 14)
 
 // solveAll discharges all obligations of a context in parallel.
 func solveAll(c *Ctx, obls []*Obligation, dir string, timeout int, par int, stats *solveStats) {
+	// stage A: folded predicate instances (cheap congruence goals); a proved one discharges its conjuncts
+	var atoms, rest []*Obligation
+	for _, o := range obls {
+		if o.Atom {
+			atoms = append(atoms, o)
+		} else {
+			rest = append(rest, o)
+		}
+	}
+	if len(atoms) > 0 {
+		batchSolve(c, atoms, dir, stats)
+		var wg sync.WaitGroup
+		for _, o := range atoms {
+			if o.Status == "unsat" {
+				continue
+			}
+			wg.Add(1)
+			go func(o *Obligation) {
+				defer wg.Done()
+				file := filepath.Join(dir, fmt.Sprintf("a%p.smt2", o))
+				if os.WriteFile(file, []byte(c.scriptW(o, false)), 0o644) == nil {
+					r := runSolver(context.Background(), solvers[0], file, 3)
+					o.Status, o.Solver, o.Seconds = r.status, r.solver, r.secs
+					os.Remove(file)
+				}
+			}(o)
+		}
+		wg.Wait()
+		for _, o := range rest {
+			if o.subsumedBy != nil && o.subsumedBy.Status == "unsat" && !o.MustFail {
+				o.Status, o.Solver, o.Seconds = "unsat", "folded-predicate("+o.subsumedBy.Solver+")", 0
+				stats.mu.Lock()
+				if stats.perSolver == nil {
+					stats.perSolver = map[string]int{}
+				}
+				stats.perSolver["folded-predicate"]++
+				stats.mu.Unlock()
+			}
+		}
+	}
+	obls = rest
 	batchSolve(c, obls, dir, stats)
 	var wg sync.WaitGroup
 	sem := globalSem
